@@ -47,6 +47,10 @@ pub struct Req {
     /// 0 A www | 1 NXDOMAIN | 2 REFUSED | 3 MX | 4 big TXT (truncated over UDP: the TSIG RR must survive)
     pub question: u8,
     pub upper_key_name: bool,
+    /// the request was relayed by a forwarder: its header ID differs from the TSIG original ID
+    /// (RFC 8945 4.3.2: the MAC covers the message with the *original* ID)
+    #[serde(default)]
+    pub forwarded: bool,
 }
 #[derive(Clone, Debug, Serialize, Deserialize)]
 pub struct Scn {
@@ -119,6 +123,7 @@ impl Prop for C10 {
                     edns: chance(r, 30),
                     question: r.below(5) as u8,
                     upper_key_name: chance(r, 20),
+                    forwarded: chance(r, 15),
                 }
             })
             .collect();
@@ -157,6 +162,9 @@ impl Prop for C10 {
             if q.upper_key_name {
                 simpler.push(Req { upper_key_name: false, ..q.clone() });
             }
+            if q.forwarded {
+                simpler.push(Req { forwarded: false, ..q.clone() });
+            }
             for n in simpler {
                 let mut c = s.clone();
                 c.reqs[i] = n;
@@ -176,7 +184,7 @@ impl Prop for C10 {
         h
     }
     fn rule() -> String {
-        "one execution = a server with 1-4 TSIG keys (HMAC-SHA1/SHA256, random names and secrets of 1-100 octets) receiving 1-6 requests signed by an independent RFC 8945 implementation: client clock skew (0, +-fudge, +-(fudge+1), up to +-70000 s), server wall-clock steps forwards/backwards between requests (incl. close to 2^39 s), fudge {0,1,300,65535}, MAC truncation {full, half, 10, 9, half-1, full+1}, tampered octet, wrong secret, unknown key, key with the other algorithm, unknown algorithm name, UDP/TCP, with/without EDNS, key names differing in case. Non-trivial = at least one request is not a plain valid one; distinct = distinct scenario".into()
+        "one execution = a server with 1-4 TSIG keys (HMAC-SHA1/SHA256, random names and secrets of 1-100 octets) receiving 1-6 requests signed by an independent RFC 8945 implementation: client clock skew (0, +-fudge, +-(fudge+1), up to +-70000 s), server wall-clock steps forwards/backwards between requests (incl. close to 2^39 s), fudge {0,1,300,65535}, MAC truncation {full, half, 10, 9, half-1, full+1}, tampered octet, wrong secret, unknown key, key with the other algorithm, unknown algorithm name, UDP/TCP, with/without EDNS, key names differing in case, requests relayed by a forwarder (header ID differs from the TSIG original ID). Non-trivial = at least one request is not a plain valid one; distinct = distinct scenario".into()
     }
     fn assumptions() -> Vec<String> {
         vec![
@@ -196,7 +204,7 @@ impl Prop for C10 {
         "E3 simrt-sequential"
     }
     fn expected_probes() -> Vec<&'static str> {
-        vec!["c10_ok", "c10_badsig", "c10_badkey", "c10_badtime", "c10_formerr_mac_size", "c10_window_edge_accepted", "c10_window_edge_rejected", "c10_truncated_mac_accepted", "c10_truncated_signed_response"]
+        vec!["c10_ok", "c10_badsig", "c10_badkey", "c10_badtime", "c10_formerr_mac_size", "c10_window_edge_accepted", "c10_window_edge_rejected", "c10_truncated_mac_accepted", "c10_truncated_signed_response", "c10_forwarded_request"]
     }
 }
 
@@ -265,6 +273,15 @@ fn run(scn: &Scn) {
         let unsigned = wire::query_full(0x1000 + i as u16, &wire::name(qn), qt, wire::C_IN, 0, if q.edns { Some(1232) } else { None });
         let spec = SignSpec { key_name: wire::name(&key_name), alg: sign_alg, alg_name, secret: secret.clone(), time: t_signed, fudge: q.fudge, mac_len };
         let (mut signed, req_mac) = tsigref::sign_request(&unsigned, &spec);
+        let mut unsigned = unsigned;
+        if q.forwarded {
+            // a forwarder replaced the header ID; the TSIG RR keeps the original one
+            for m in [&mut signed, &mut unsigned] {
+                m[0] ^= 0x55;
+                m[1] ^= 0xaa;
+            }
+            simrt::probe("c10_forwarded_request");
+        }
         if q.tamper {
             signed[14] ^= 0x01; // an octet of the QNAME: covered by the MAC, still a well-formed message
         }
